@@ -109,10 +109,15 @@ inductive Call where
   /-- `UpsertId` with headstorage's modifier: heads replaced, common snapshot replaced if given -/
   | upsertHeads (id : Nat) (heads : List Nat) (cs : Option Nat)
   | qdelTree (t : Nat)
+  /-- an insert the store answers with "document exists": no effect; `AddAllNoError` goes on -/
+  | insertDup (k : Key)
+  /-- `UpsertId` on an existing heads entry that changes only fields the model does not carry
+  (deleted-status of a late-arriving child) -/
+  | touchHeads (id : Nat)
 deriving DecidableEq, Repr, Inhabited
 
 def Call.isWrite : Call → Bool
-  | .mkcoll _ | .idx _ | .insert _ _ | .upsertHeads _ _ _ | .qdelTree _ => true
+  | .mkcoll _ | .idx _ | .insert _ _ | .upsertHeads _ _ _ | .qdelTree _ | .insertDup _ | .touchHeads _ => true
   | _ => false
 
 /-- top-level transaction control -/
@@ -213,6 +218,11 @@ inductive Op where
   | aclAdd (acl rec : Nat) (v : RecV)
   /-- storage.Delete -/
   | treeDelete (t : Nat)
+  /-- storage.AddAllNoError: as AddAll, but changes that are stored already (`dups`) are skipped -/
+  | addAllNoError (t : Nat) (dups : List Nat) (chs : List NewChange) (heads : List Nat) (cs : Nat)
+  /-- CreateStorage of a derived tree bound to a parent; `queued`: the parent is already queued for
+  deletion, so the child's entry is marked in the same transaction -/
+  | treeCreateChild (t : Nat) (queued : Bool)
 deriving Repr, Inhabited
 
 def rootChange (t : Nat) : Val := .change ⟨t, [], none, 0⟩
@@ -239,6 +249,10 @@ def traceOf : Op → List Call
     [.begin] ++ createStorageCalls t ++ [.sbegin] ++ addAllBody t chs heads cs ++ [.scommit, .commit]
   | .aclAdd acl r v => [.begin, .insert ⟨.acl, r⟩ (.record v), .upsertHeads acl [r] none, .commit]
   | .treeDelete t => [.begin, .qdelTree t, .commit]
+  | .addAllNoError t dups chs heads cs =>
+    [.begin] ++ dups.map (fun d => Call.insertDup ⟨.changes, d⟩) ++ addAllBody t chs heads cs ++ [.commit]
+  | .treeCreateChild t queued =>
+    [.begin] ++ createStorageCalls t ++ (if queued then [.touchHeads t] else []) ++ [.commit]
 
 /-- the shape the property needs: exactly one top-level transaction that contains every write -/
 def SingleTx (tr : List Call) : Prop :=
